@@ -25,6 +25,12 @@ func (g *Gen) initGhost() {
 			if g.ghostSorts == nil {
 				g.ghostSorts = map[string]string{}
 			}
+			switch sort { // aliases for the array sorts of the map model (a ghost declaration is split at blanks)
+			case "PSet":
+				sort = "(Array Int (Array Int Bool))"
+			case "PIdx":
+				sort = "(Array Int (Array Int Int))"
+			}
 			g.ghostSorts[name] = sort
 			if init == "" {
 				init = "0"
@@ -125,7 +131,49 @@ func (e *Engine) globalConstInit(gl *ssa.Global, lay *Layout) map[int]string {
 }
 
 func (e *Engine) onStore(g *Gen, x *ssa.Store, addr *Val) {}
-func (e *Engine) onMake(g *Gen, x ssa.Value, id string)   {}
+// Map model (option `mapmodel`): ONE local, non-escaping map with pointer keys and zero-size values per function is modelled
+// by ghost state the contract declares:  $mset PSet (key set), $msize Int (number of keys), and for the single `range` over
+// it  $mrem PSet (keys not yet visited), $mcnt Int (their number). Semantics assumed (Go specification, rule R3): a map holds
+// each key once; len is the number of keys; a range loop over a map that is not modified during the iteration visits every
+// key exactly once, in an unspecified order. The engine rejects the option when the map escapes (is stored, passed or
+// returned), when a second map is made, or when an update can execute after the range statement.
+func (e *Engine) onMake(g *Gen, x ssa.Value, id string) {
+	mm, isMap := x.(*ssa.MakeMap)
+	if !isMap || g.ct.Options["mapmodel"] == "" {
+		return
+	}
+	if g.mapModel != nil && g.mapModel != mm {
+		g.errs = append(g.errs, "outside subset: option mapmodel supports one map per function")
+		return
+	}
+	mt := mm.Type().Underlying().(*types.Map)
+	if _, ok := mt.Key().Underlying().(*types.Pointer); !ok || g.lay.Size(mt.Elem()) != 0 {
+		g.errs = append(g.errs, "outside subset: option mapmodel supports pointer keys with zero-size values only")
+		return
+	}
+	for _, r := range *mm.Referrers() {
+		switch u := r.(type) {
+		case *ssa.MapUpdate, *ssa.Range, *ssa.DebugRef, *ssa.Lookup:
+		case *ssa.Call:
+			if b, isB := u.Common().Value.(*ssa.Builtin); !isB || b.Name() != "len" {
+				g.errs = append(g.errs, "outside subset: modelled map escapes into a call")
+			}
+		default:
+			g.errs = append(g.errs, fmt.Sprintf("outside subset: modelled map escapes (%T)", r))
+		}
+	}
+	for _, n := range []string{"$mset", "$msize", "$mrem", "$mcnt"} {
+		if _, ok := g.ghost[n]; !ok {
+			g.bindFail("option mapmodel needs ghost variables $mset PSet pset_empty, $msize Int 0, $mrem PSet pset_empty, $mcnt Int 0")
+			return
+		}
+	}
+	g.mapModel = mm
+	g.use("prelude:ptrset")
+	g.ghost["$mset"] = "pset_empty"
+	g.ghost["$msize"] = "0"
+	g.assumedUsed["rule R3 (Go map semantics): a map holds each key once, len is the number of keys, a range over an unmodified map visits every key exactly once in an unspecified order"] = true
+}
 func (e *Engine) onReturn(g *Gen, x *ssa.Return) {
 	if p, ok := g.ghost["$pending"]; ok && g.fn.Parent() == nil {
 		g.obligeNamed(fmt.Sprintf("%s#proto.joined@ret%d", g.unit, g.kcnt["ret"]), "proto.join", fmt.Sprintf("(= %s 0)", p), x.Pos(),
@@ -249,14 +297,70 @@ func (e *Engine) onRecv(g *Gen, x *ssa.UnOp) *Val {
 	return g.havocVal(x.Type(), "recv")
 }
 func (e *Engine) onRange(g *Gen, x *ssa.Range) *Val {
-	g.errs = append(g.errs, "outside subset: range over map/string")
-	return g.havocVal(x.Type(), "range")
+	if g.mapModel == nil || x.X != ssa.Value(g.mapModel) {
+		g.errs = append(g.errs, "outside subset: range over map/string")
+		return g.havocVal(x.Type(), "range")
+	}
+	if g.mapRange != nil && g.mapRange != x {
+		g.errs = append(g.errs, "outside subset: option mapmodel supports one range statement over the map")
+	}
+	g.mapRange = x
+	// no update of the map may execute once the iteration has started
+	seen := map[*ssa.BasicBlock]bool{}
+	work := []*ssa.BasicBlock{}
+	scan := func(b *ssa.BasicBlock, from int) {
+		for i := from; i < len(b.Instrs); i++ {
+			if mu, ok := b.Instrs[i].(*ssa.MapUpdate); ok && mu.Map == ssa.Value(g.mapModel) {
+				g.errs = append(g.errs, "outside subset: modelled map is updated after its range statement")
+			}
+		}
+		for _, sc := range b.Succs {
+			if !seen[sc] {
+				seen[sc] = true
+				work = append(work, sc)
+			}
+		}
+	}
+	scan(x.Block(), indexOf(x.Block(), x)+1)
+	for len(work) > 0 {
+		b := work[len(work)-1]
+		work = work[:len(work)-1]
+		scan(b, 0)
+	}
+	g.ghost["$mrem"] = g.ghost["$mset"]
+	g.ghost["$mcnt"] = g.ghost["$msize"]
+	return &Val{T: x.Type(), Sort: "Int", S: []string{"0"}}
 }
 func (e *Engine) onNext(g *Gen, x *ssa.Next) *Val {
-	return g.havocVal(x.Type(), "next")
+	if g.mapRange == nil || x.Iter != ssa.Value(g.mapRange) {
+		return g.havocVal(x.Type(), "next")
+	}
+	rem, cnt := g.ghost["$mrem"], g.ghost["$mcnt"]
+	ok := g.def("next_ok", "Bool", fmt.Sprintf("(> %s 0)", cnt))
+	ko := g.freshConst("next_kobj", "Int")
+	kc := g.freshConst("next_koff", "Int")
+	g.assumeRaw(fmt.Sprintf("(and (>= %s 0) (>= %s 0) (>= %s 0))", cnt, ko, kc))
+	g.assumeRaw(fmt.Sprintf("(=> %s (select (select %s %s) %s))", ok, rem, ko, kc))
+	g.assumeRaw(fmt.Sprintf("(=> (not %s) (forall ((o Int) (c Int)) (! (not (select (select %s o) c)) :pattern ((select (select %s o) c)))))", ok, rem, rem))
+	g.ghost["$mrem"] = g.def("gh_mrem", "(Array Int (Array Int Bool))", fmt.Sprintf("(ite %s (store %s %s (store (select %s %s) %s false)) %s)", ok, rem, ko, rem, ko, kc, rem))
+	g.ghost["$mcnt"] = g.def("gh_mcnt", "Int", fmt.Sprintf("(ite %s (- %s 1) %s)", ok, cnt, cnt))
+	tt := x.Type().(*types.Tuple)
+	return &Val{T: x.Type(), Tuple: []*Val{
+		{T: tt.At(0).Type(), Sort: "Bool", S: []string{ok}},
+		{T: tt.At(1).Type(), Sort: "Ptr", S: []string{ko, kc}},
+		{T: tt.At(2).Type()},
+	}}
 }
 func (e *Engine) onMapUpdate(g *Gen, x *ssa.MapUpdate) {
-	g.errs = append(g.errs, "outside subset: map update")
+	if g.mapModel == nil || x.Map != ssa.Value(g.mapModel) {
+		g.errs = append(g.errs, "outside subset: map update")
+		return
+	}
+	k := g.val(x.Key)
+	set, size := g.ghost["$mset"], g.ghost["$msize"]
+	g.assumeRaw(fmt.Sprintf("(>= %s 0)", size))
+	g.ghost["$msize"] = g.def("gh_msize", "Int", fmt.Sprintf("(ite (select (select %s %s) %s) %s (+ %s 1))", set, k.S[0], k.S[1], size, size))
+	g.ghost["$mset"] = g.def("gh_mset", "(Array Int (Array Int Bool))", fmt.Sprintf("(store %s %s (store (select %s %s) %s true))", set, k.S[0], set, k.S[0], k.S[1]))
 }
 func (e *Engine) onLookup(g *Gen, x *ssa.Lookup) *Val {
 	g.errs = append(g.errs, "outside subset: map/string lookup")
@@ -272,6 +376,10 @@ func (e *Engine) onTypeAssert(g *Gen, x *ssa.TypeAssert) *Val {
 	return g.havocVal(x.Type(), "typeassert")
 }
 func (e *Engine) onMapLen(g *Gen, m ssa.Value, a *Val, resT types.Type) *Val {
+	if g.mapModel != nil && m == ssa.Value(g.mapModel) {
+		g.assumeRaw(fmt.Sprintf("(>= %s 0)", g.ghost["$msize"]))
+		return scalar("Int", g.ghost["$msize"], resT)
+	}
 	return g.havocVal(resT, "maplen")
 }
 
@@ -327,6 +435,61 @@ func (e *Engine) ghostDynCall(g *Gen, cc *ssa.CallCommon, pos token.Pos) *Val {
 func (e *Engine) ghostCallContract(g *Gen, cc *ssa.CallCommon) *Contract { return nil }
 func (e *Engine) specialCall(g *Gen, callee *ssa.Function, cc *ssa.CallCommon, args []*Val, resT types.Type, pos token.Pos) (*Val, bool) {
 	switch funcKey(callee) {
+	case repoMod + "/common/parallel.Execute":
+		// Rule R2 (parallel for). Execute(n, cl) with cl a closure under a contract marked `option chunked`:
+		// C20 proves that Execute calls the work function exactly once on each range of a partition of [0,n) into
+		// contiguous, disjoint, non-empty ranges and returns after all calls returned. The closure's contract is proved for
+		// every range [start,end); here (a) its precondition is an obligation at the whole range [0,n), (b) it must be
+		// monotone: an obligation shows it for every sub-range [a,b) of [0,n) from the whole-range precondition, and
+		// (c) the effect of the call is the closure's postcondition at [0,n). Assumed (listed): the contract is
+		// chunk-compositional - running the chunks of a partition in any order or concurrently has the effect of the single
+		// chunk [0,n): the footprints of disjoint ranges are disjoint (part of the closure's precondition, e.g. pairwise
+		// distinct pointers) and each chunk reads, besides its own footprint, only cells no chunk writes.
+		if len(args) < 2 || args[1].Clos == nil || args[1].Fn == nil {
+			return nil, false
+		}
+		fn := args[1].Fn
+		ct := e.contractFor(fn)
+		if ct == nil || ct.Options["chunked"] == "" || len(fn.Params) != 2 {
+			return nil, false
+		}
+		names := []string{fn.Params[0].Name(), fn.Params[1].Name()}
+		cargs := []*Val{scalar("Int", "0", fn.Params[0].Type()), args[0]}
+		for i, fv := range fn.FreeVars {
+			names = append(names, fv.Name())
+			cargs = append(cargs, g.val(args[1].Clos.Bindings[i]))
+		}
+		// (b) monotonicity, from the current state: symbolic sub-range
+		a, b := g.freshConst("par_a", "Int"), g.freshConst("par_b", "Int")
+		wenv := &Env{g: g, vars: map[string]*Val{}, heap: copyMap(g.heap), old: copyMap(g.heap), nextobj: g.nextobj, oldNextobj: g.nextobj,
+			ghost: copyMap(g.ghost), oldGhost: copyMap(g.ghost), pkg: e.pkgOfKey(ct.Key)}
+		senv := wenv.clone()
+		for i, n := range names {
+			wenv.vars[n] = cargs[i]
+			senv.vars[n] = cargs[i]
+		}
+		senv.vars[names[0]] = scalar("Int", a, fn.Params[0].Type())
+		senv.vars[names[1]] = scalar("Int", b, fn.Params[1].Type())
+		for _, l := range ct.Lets {
+			if v := g.specVal(wenv, l.E); v != nil {
+				wenv.vars[l.Name] = v
+			}
+			if v := g.specVal(senv, l.E); v != nil {
+				senv.vars[l.Name] = v
+			}
+		}
+		var whole []string
+		for _, c := range ct.Requires {
+			whole = append(whole, g.specBool(wenv, c.E))
+		}
+		senv.goal = true
+		for _, c := range ct.Requires {
+			t := g.specBool(senv, c.E)
+			g.oblige("par.sub", fmt.Sprintf("(=> (and (<= 0 %s) (<= %s %s) (<= %s %s) %s) %s)", a, a, b, b, args[0].S[0], and(whole...), t), pos,
+				"rule R2: the precondition of "+fn.Name()+" at the whole range implies it at every sub-range: "+c.Text, c.Props)
+		}
+		g.assumedUsed["rule R2 (parallel for): the contract of "+shortKey(ct.Key)+" is chunk-compositional - chunks of a partition run in any order or concurrently have the effect of the single chunk [0,n); Execute's partition and join are proved under C20"] = true
+		return g.applyContract(ct, names, cargs, fn.Signature, resT, pos), true
 	case "sync.WaitGroup.Wait":
 		// rule R1: Wait returns when the counter is zero; every pending goroutine decrements it exactly once
 		p, ok := g.ghost["$pending"]
